@@ -156,6 +156,11 @@ def solver_model(I):
         if len(rows) > 4:
             raise Unsupported('np.linalg.solve: determinant of a %dx%d matrix' % (len(rows), len(rows)), nd)
         if determinant(rows).iszero():
+            # A rank-deficient system was handed to the exact solver.  Its documented answer is LinAlgError, but LAPACK
+            # raises only for a pivot that is exactly zero after round-off; otherwise it returns a "solution" that is
+            # not the least-squares one.  The model follows the documented path and records the call: a fit that
+            # relies on the exception to reach the least-squares solver does not solve this system by least squares.
+            sols.setdefault('singular_solve', []).append((len(rows), nd, fr.module if fr is not None else None))
             raise _RaisedExc(Raised('LinAlgError', nd))         # Singular matrix
         return solution(I_, M, y)
     I.native['numpy.linalg.lstsq'] = lstsq
@@ -190,6 +195,19 @@ def verify_fit(run, repo, ci, I, r, species, sols, dname, label, stage, holders=
                  'np.linalg.lstsq is told to treat singular values below %s of the largest as zero: a full-rank '
                  'reference set with a smaller ratio (C4H10/C5H12: 0.007) is solved in a subspace and the experimental '
                  'enthalpies are not reproduced' % float(val), mod or owner.module, nd if mod is not None else fn)
+    # when the references do not determine the offsets uniquely the residual must be the least-squares one: the system
+    # of a rank-deficient reference set - also a square one - goes to a least-squares solver, never to the exact solver
+    # (whose LinAlgError for a singular matrix depends on round-off and cannot be what selects the fallback)
+    exact = sols.pop('singular_solve', [])
+    size, nd, mod = exact[0] if exact else (0, None, None)
+    run.check(not exact, 'REF.solver', 'References.fit_HoRT_offset', label + stage + ' rank-deficient square system',
+              'the %dx%d composition matrix of this reference set is rank deficient and was handed to np.linalg.solve '
+              'before np.linalg.lstsq: the exact solver raises LinAlgError only for an exactly zero pivot (C7H5O4|C2H2|'
+              'C9H7O4 leaves a pivot of 1e-16 and offsets of 1e15), so the offsets are not the least-squares ones and '
+              'the residual is not orthogonal to the composition matrix' % (size, size),
+              mod or owner.module, nd if mod is not None else fn,
+              sample='rank-deficient reference set, also a square one: the solver handed the system is least-squares')
+    n += 1
     shape_ok = isinstance(M, ListV) and len(M) == len(species) and \
         all(isinstance(row, ListV) and len(row) == len(names) for row in M.items) and \
         isinstance(y, ListV) and len(y) == len(species)
@@ -341,8 +359,11 @@ def check(run, repo):
         'offset per current descriptor equal to the solution of the last solve, T_ref, rows, right-hand side, '
         'reproduction. Reference temperatures differing by 0.01 K: the fit succeeds, each species is evaluated at '
         'its own T_ref and T_ref becomes the mean. Rank-deficient reference sets with concrete counts (C2H4|C3H6 over '
-        'C,H: 2x2 rank 1, + CH2: 3x2 rank 1; CH4O|C2H6O2|C3H8O3: 3x3 rank 2): the fit succeeds and the same '
-        'identities hold.')
+        'C,H: 2x2 rank 1, + CH2: 3x2 rank 1; CH4O|C2H6O2|C3H8O3: 3x3 rank 2; C7H5O4|C2H2|C9H7O4: 3x3 rank 2 with '
+        'row 3 = row 1 + row 2, + CH: 4x3, pop: square again): the fit succeeds, the same identities hold, and the '
+        'system of a rank-deficient set - also a square one - is not handed to the exact solver on its way to the '
+        'least-squares solver (LinAlgError for a singular matrix depends on round-off; relying on it leaves offsets '
+        'that are not the least-squares ones).')
     run.assumptions = ['np.linalg.lstsq without a truncation threshold returns the least-squares solution of the '
                        'system it is given (NumPy contract)',
                        'np.linalg.solve of a square matrix whose determinant is not identically zero returns the '
@@ -588,6 +609,13 @@ def check(run, repo):
     fit_cases.append(((('A', 'B', 'C'), ('A', 'B', 'C'), ('A', 'B', 'C')), 'groups', False,
                       ([{'A': 1, 'B': 4, 'C': 1}, {'A': 2, 'B': 6, 'C': 2}, {'A': 3, 'B': 8, 'C': 3}], None,
                        'rank 2: AB4C|A2B6C2|A3B8C3')))
+    # as many references as descriptors, one row the sum of the other two (C7H5O4|C2H2|C9H7O4 over C,H,O: 3x3 rank 2,
+    # one species without the third descriptor): the offsets are not determined, so the system must reach the
+    # least-squares solver although it is square.  Then the set becomes 4x3 (CH appended, rank kept) and square again
+    # (pop): the refit of the square rank-deficient set is decided the same way
+    fit_cases.append(((('A', 'B', 'C'), ('A', 'B'), ('A', 'B', 'C')), 'elements', False,
+                      ([{'A': 7, 'B': 5, 'C': 4}, {'A': 2, 'B': 2}, {'A': 9, 'B': 7, 'C': 4}], {'A': 1, 'B': 1},
+                       'rank 2, square: A7B5C4|A2B2|A9B7C4 (row 3 = row 1 + row 2)', 'pop')))
     if run.tier == 'thorough':
         # the upper end of the sizes the property names: 8 reference species over 5 descriptors (+ the history)
         fit_cases.append(((('A', 'B'), ('B', 'C'), ('C', 'D'), ('D', 'E'), ('A', 'E'), ('A', 'B', 'C', 'D', 'E'),
@@ -681,6 +709,8 @@ def check(run, repo):
                 extra = ref_species(I, repo, 'refX', tuple(concrete[1]), Tr, dname, name=pname('refX'),
                                     counts=concrete[1])
                 n_fit += step(' append+refit', 'append', {'obj': extra.obj}, [extra])
+                if len(concrete) > 3 and repo.find_method(ci, 'pop', missing_ok=True) is not None:
+                    n_fit += step(' pop+refit (square again)', 'pop', {}, removed=-1)
             continue
         # ... a reference that brings a descriptor the set did not know (D)
         extra = ref_species(I, repo, 'refX', ('A', 'D'), Tr, dname, name=pname('refX'))
@@ -705,7 +735,7 @@ def check(run, repo):
         # ... and taking out a reference by its position (pop(0): the first, not the default last)
         if repo.find_method(ci, 'pop', missing_ok=True) is not None and len(now) > 1:
             n_fit += step(' pop(0)+refit', 'pop', {}, args=(C(0),), removed=0)
-    # 59 on this tree; without pop/remove/extend/__setitem__ in the class 24
+    # 62 on this tree; without pop/remove/extend/__setitem__ in the class 24
     run.floor('fits of a reference set (construction, change + refit)', len(stages), 24)
     run.extra['fit_instances'] = n_fit
 
@@ -856,6 +886,17 @@ MUTANTS += [
                 '            for key in ref_kwargs:\n'
                 '                if key != \'T\':\n'
                 '                    del ref_kwargs[key]\n')]},
+]
+MUTANTS += [
+    {'name': 'r7: square systems tried with np.linalg.solve, least squares only after LinAlgError',
+     'expect': ('REF.solver', 'fit_HoRT_offset'),
+     'edits': [(F_, '        offset = np.linalg.lstsq(descriptors_mat, ref_offset, rcond=None)[0]',
+                '        try:\n'
+                '            if descriptors_mat.shape[0] != descriptors_mat.shape[1]:\n'
+                '                raise np.linalg.LinAlgError(\'Descriptors matrix not square.\')\n'
+                '            offset = np.linalg.solve(descriptors_mat, ref_offset)\n'
+                '        except np.linalg.LinAlgError:\n'
+                '            offset = np.linalg.lstsq(descriptors_mat, ref_offset, rcond=None)[0]')]},
 ]
 # armed by the run that finds the interpreter model they need (see arm(), REQ2_C10)
 PENDING_MUTANTS = [
